@@ -23,3 +23,9 @@ pub type VarRenameMap = HashMap<String, String>;
 /// Shorthand for mapping between string labels (domain label, proposition, formula) and the corresponding
 /// set it evaluates to.
 pub type LabelToSetMap = HashMap<String, GraphColoredVertices>;
+
+/// Re-export of the (otherwise private) canonization functions for the external verification harness.
+#[cfg(feature = "verif-hooks")]
+pub mod verif_hooks {
+    pub use super::canonization::{get_canonical, get_canonical_and_renaming};
+}
